@@ -293,9 +293,20 @@ class VDict(V):
 
 class VSet(V):
     """set of concrete members; `conds[i]` (optional) is the symbolic condition under which items[i] is present"""
-    def __init__(self, items, conds=None):
+    def __init__(self, items, conds=None, key=None):
         self.items = list(items)
         self.conds = conds
+        # a set that is mutated (add / update / discard) keeps its content per state under heap[key]; every expression that yields the
+        # set hands out a view with that state's content (Exec.ev), the creation-time items are never changed
+        self.key = key or 'set!%d' % next(_fresh)
+
+    def view(self, st):
+        cur = st.heap.get(self.key)
+        if cur is None or (cur[0] is self.items and cur[1] is self.conds):
+            return self
+        v = VSet(cur[0], cur[1], key=self.key)
+        v.items = cur[0]
+        return v
 
 
 class VCtx(V):
@@ -778,7 +789,10 @@ class Exec:
         m = getattr(self, 'ev_' + type(node).__name__, None)
         if m is None:
             raise ToolLimit('expr %s' % type(node).__name__)
-        return m(node, env, st, ctx)
+        out = m(node, env, st, ctx)
+        if any(isinstance(v, VSet) and v.key in s.heap for s, v in out):
+            out = [(s, v.view(s) if isinstance(v, VSet) else v) for s, v in out]
+        return out
 
     def ev1(self, node, env, st, ctx):
         """evaluate expecting no forking in expression; returns (st, v) list possibly with Raise marker"""
@@ -1409,6 +1423,8 @@ class Exec:
         if isinstance(o, VHash) and attr == 'digest_size':
             return [(st, VInt(hashlib.new(o.alg).digest_size))]
         if isinstance(o, (VInt, VBytes, VBuf, VStr, VHash, VList, VDict)):
+            return [(st, VBuiltin(attr, bound=o))]
+        if isinstance(o, VSet) and attr in ('add', 'update', 'discard'):
             return [(st, VBuiltin(attr, bound=o))]
         if isinstance(o, VBuiltin) and o.name == 'superobj' and isinstance(o.bound, tuple) and isinstance(o.bound[0], VClass):
             C, selfv = o.bound
@@ -2578,6 +2594,48 @@ class Exec:
             return [(st, VTuple([VTuple([k, v]) for k, v in b.of(st)]))]
         if isinstance(b, VList) and name == 'append':
             st.heap[b.cell] = st.heap[b.cell] + (A[0],)
+            return [(st, VNone())]
+        if isinstance(b, VSet) and name in ('add', 'update', 'discard'):
+            b = b.view(st)
+            T = z3.BoolVal(True)
+            items, conds = list(b.items), list(b.conds) if b.conds is not None else [T] * len(b.items)
+            new = [(A[0], T)] if name != 'update' else []
+            if name == 'update':
+                for a in A:
+                    a = a.view(st) if isinstance(a, VSet) else a
+                    if isinstance(a, VSet) and a.conds is not None:
+                        new += list(zip(a.items, a.conds))
+                    else:
+                        new += [(x, T) for x in self.iter_items(a, st)]
+
+            def ckey(x):
+                if isinstance(x, VInt) and x.conc() is not None:
+                    return ('int', x.conc())
+                if isinstance(x, VStr) and isinstance(x.s, str) and x.z is None:
+                    return ('str', x.s)
+                if isinstance(x, VObj) and self.repo.lookup(x.cls, '__eq__') is None and self.repo.lookup(x.cls, '__hash__') is None and not z3.is_expr(x.ref):
+                    return ('obj', x.ref)
+                raise ToolLimit('set.%s with a member that is not a concrete value' % name)
+            keys = [ckey(x) for x in items]
+            for x, c in new:
+                k = ckey(x)
+                if name == 'discard':
+                    conds = [z3.BoolVal(False) if kk == k else cc for kk, cc in zip(keys, conds)]
+                elif k in keys:
+                    i = keys.index(k)
+                    conds[i] = z3.simplify(z3.Or(conds[i], c))
+                else:
+                    items.append(x)
+                    conds.append(c)
+                    keys.append(k)
+            if all(z3.is_true(c) for c in conds):
+                conds = None
+            elif any(z3.is_false(c) for c in conds):
+                keep = [i for i, c in enumerate(conds) if not z3.is_false(c)]
+                items, conds = [items[i] for i in keep], [conds[i] for i in keep]
+                if all(z3.is_true(c) for c in conds):
+                    conds = None
+            st.heap[b.key] = (items, conds)
             return [(st, VNone())]
         if isinstance(b, VList) and name == 'remove':
             # list.remove(x) / deque.remove(x): drops the first element equal to x, ValueError if none
